@@ -4,6 +4,7 @@ CONSTANTS
   Emit = TRUE
   RandomGraphs = 40
   EdgeCounts = {3, 5, 7, 9, 12}
+  Shapes = {}
   SliceK = 0
   SliceM = 1
 INVARIANTS EmitReplay
